@@ -25,8 +25,8 @@ MANIFEST = dict(
          "/repo on every run by programs that bind each small stream state to a variable and apply a random order of observations, compared with the model and with Python itertools/range.",
     note="Trusted: Coq kernel; hand-written model Seq/Streams.v (tie to the code is the correspondence run, differential testing); extraction + OCaml runner; Rust harness; "
          "Python oracle. The Permutations theorems are bounded (base length <= 6, stated in the theorem). Element functions of lazy_map/lazy_filter/lazy_zip/iterate are total "
-         "in the model (erroring or `break`ing callbacks are not modelled). Known findings: len of a range with >= 2^64 elements reports infinity; len of permutations/subsequences/cartesian "
-         "powers whose count (or the power accumulated next to it) does not fit usize panics in a debug build. Negative indices/slices of infinite streams other than repeat/cycle are outside the property.",
+         "in the model (erroring or `break`ing callbacks are not modelled). Known finding (one class): len of a finite range/permutations/subsequences/cartesian power with >= 2^64 elements "
+         "reports infinity because Option<usize> cannot hold the count. Negative indices/slices of infinite streams other than repeat/cycle are outside the property.",
     design="6-C11")
 
 I63 = 2 ** 63
@@ -413,9 +413,9 @@ def build_case(ctx, d, k, uid):
     return dict(desc=d, k=k, setup=setup, obs=obs, kind=kind, n=(len(L) if L is not None else None))
 
 
-OVERFLOW_CASES = [  # (descriptor, drop, exact count) -- len needs a count or a power that does not fit usize
-    (("perm", 21), 0, math.factorial(21)), (("subs", 64), 0, 2 ** 64), (("subs", 64), 1, 2 ** 64 - 1),
-    (("cart", 2, 64), 0, 2 ** 64),
+HUGE_CASES = [  # (descriptor, drop): combinatorial streams whose count is near or beyond 2^64
+    (("perm", 21), 0), (("perm", 20), 0), (("subs", 64), 0), (("subs", 64), 1), (("subs", 63), 0),
+    (("cart", 2, 64), 0), (("cart", 2, 64), 1), (("cart", 3, 41), 0), (("cart", 3, 40), 0),
 ]
 
 
@@ -447,13 +447,18 @@ def agrees(obs, exp):
     return obs == exp
 
 
+KNOWN_KEY = "len-count-ge-2^64"
+
+
 def known_class(case, o, impl):
-    """structural matchers for the committed known findings"""
+    """structural matcher for the committed known finding: the observation is `len`, the stream is
+    a range / permutations / subsequences / cartesian power whose exact remaining count is finite
+    and >= 2^64, and the implementation answered infinity"""
     d = case["desc"]
-    if d[0] in ("til", "to") and o.kind == "len" and impl == "ok " + INF:
+    if d[0] in ("til", "to", "perm", "subs", "cart") and o.kind == "len" and impl == "ok " + INF:
         c = count(d)
         if c != math.inf and c - case["k"] >= U64:
-            return "range-len-ge-2^64"
+            return KNOWN_KEY
     return None
 
 
@@ -550,24 +555,28 @@ def special_cases(ctx, runner):
                                    "program": ["s := cycle([])", "first(s)"], "implementation": got, "coq_model": m}, found=True)
     elif m != "ctor-err":
         ctx.violation("correspondence", {"what": "model of cycle([])", "coq_model": m, "implementation": got}, found=False)
-    # len whose count does not fit usize: known finding (panic in a debug build)
-    progs = [[f"s := {render_big(d)}" + (f" drop {k}" if k else ""), "len(s)"] for d, k, _ in OVERFLOW_CASES]
+    # len of combinatorial streams whose count is near or beyond 2^64: the exact count when it fits
+    # usize, infinity (the known finding) when it does not; never a panic
+    progs = [[f"s := {render_big(d)}" + (f" drop {k}" if k else ""), "len(s)"] for d, k in HUGE_CASES]
     res = common.run_prog(progs, timeout=20.0)
-    ml = common.run_model(runner, [f"{model_tokens(d)} ; {k} ; len" for d, k, _ in OVERFLOW_CASES]) if runner else [None] * len(progs)
-    for (d, k, cnt), p, r, m in zip(OVERFLOW_CASES, progs, res, ml):
+    ml = common.run_model(runner, [f"{model_tokens(d)} ; {k} ; len" for d, k in HUGE_CASES]) if runner else [None] * len(progs)
+    len_obs = Obs("len", [], "len(s)", "len", None)
+    for (d, k), p, r, m in zip(HUGE_CASES, progs, res, ml):
         evals += 1
+        cnt = count(d) - k
         rs = (r or {}).get("results") or []
         got = observed(rs[1]) if len(rs) > 1 else "missing"
+        rep = {"what": "len of a combinatorial stream whose count is near or beyond 2^64", "program": p, "implementation": got,
+               "python_oracle": "ok " + canon(cnt), "coq_model": m}
         if got == "ok " + canon(cnt):
             if m is not None and m != got:
-                ctx.violation("correspondence", {"what": "len of a huge combinatorial stream", "program": p, "implementation": got, "coq_model": m}, found=False)
-        elif got == "panic" and "len-usize-overflow" in ctx.known:
-            ctx.known_hit("len-usize-overflow", p[0])
-            if m not in (None, "panic"):
-                ctx.violation("correspondence", {"what": "len of a huge combinatorial stream", "program": p, "implementation": got, "coq_model": m}, found=False)
+                ctx.violation("correspondence", rep, found=False)
+        elif known_class({"desc": d, "k": k}, len_obs, got) and KNOWN_KEY in ctx.known:
+            ctx.known_hit(KNOWN_KEY, p[0])
+            if m is not None and m != got:
+                ctx.violation("correspondence", rep, found=False)
         else:
-            ctx.violation("property", {"what": "len of a stream whose count does not fit a machine word", "program": p, "implementation": got,
-                                       "python_oracle": canon(cnt), "coq_model": m}, found=True)
+            ctx.violation("property", rep, found=True)
     return evals
 
 
